@@ -1,6 +1,7 @@
 SPEC = {
-    "lean_modules": ["AM.Props.C02", "AM.Props.C02I", "AM.Props.C02M"],
+    "lean_modules": ["AM.Props.Suppress", "AM.Props.C02", "AM.Props.C02I", "AM.Props.C02M"],
     "theorems": [
+        "AM.Suppress.suppressed_never_notified", "AM.Suppress.unsuppressed_firing_listed", "AM.Suppress.verdicts_only_at_flush",
         "AM.Silence.mutes_correct", "AM.Silence.inv_step", "AM.Silence.reachable_inv",
         "AM.Silence.mutes_eq_bruteforce", "AM.Silence.takes_effect_next_flush", "AM.Silence.effective_after_merge",
         "AM.Silence.mutes_eq_bruteforce_partial", "AM.Silence.revival_counterexample",
